@@ -10,6 +10,7 @@ def run(ctx):
     hx = ctx.go_build("c11")
     ctx.proof_side(DIRS, "Properties/C11.v", extra_trusted=[
         "hand-written model of ds/orderedmap/orderedmap.go, ds/set_impl.go and the uint32/Empty instance of serializableorderedmap Encode/Decode (Model.v), tied to the code by the lockstep correspondence only",
+        "hand-written model of serializableorderedmap Encode/Decode over arbitrary entry codecs incl. serializer.Serializer's sticky first error (CodecModel.v), tied to the code by the codec correspondence; serix itself (the entry codecs) is a parameter: observed per key / value through api.Encode / api.Decode in isolation",
         "lock skeletons of the set/OrderedMap/ShrinkingMap methods are hand-written data (Skeletons.v), validated against the code by the scripted and free-running watchdog runs only",
         "Go sync.RWMutex abstracted as: readers set + one announced writer; an announced writer blocks new readers (writer preference)",
     ])
@@ -19,14 +20,17 @@ def run(ctx):
             ctx.corr(hx, ["hist", "--n", "1200", "--len", "40"], cases_name="cases%d.v" % k)
         ctx.seed -= 5000
         ctx.corr(hx, ["conc", "--runs", "4", "--lin", "1500", "--atom", "300"], cases_name="conc.v")
+        ctx.corr(hx, ["codec", "--n", "2500"], cases_name="codec.v")
     else:
         ctx.corr(hx, ["hist", "--n", "450", "--len", "30"])
         ctx.corr(hx, ["conc", "--runs", "1", "--lin", "300", "--atom", "60"], cases_name="conc.v")
+        ctx.corr(hx, ["codec", "--n", "250"], cases_name="codec.v")
     ctx.assumptions += [
         "one shared set/map; set-typed arguments (other, mutations) are private to the calling goroutine and distinct from the receiver (s.Replace(s), s.DeleteAll(s) are outside the model)",
         "the Compute factory does not call writer methods of the same set; ForEach/ForEachReverse/Range/Filter consumers MAY call Set/Add, Delete and Clear of the receiver (scripted re-entrant consumers, also through a helper goroutine while the consumer waits)",
         "diff exactness of Apply/Compute is stated for mutations whose added and deleted sets are disjoint (overlap: known finding apply-overlap-reports-unchanged-element); for arbitrary mutations the returned mutations replay the state change",
         "codec instance: uint32 elements (4 bytes little endian), types.Empty values (0 bytes), uint32 count prefix; sets of fewer than 2^32 elements",
+        "generic codec (failing entries): the entry codecs are arbitrary functions ek ev (None = api.Encode fails); round trip / truncation theorems assume decoders that invert the encoders and reject proper prefixes of a code (true of the serix types used: fixed width, length-prefixed, tagged); Decode leaves the entries decoded before a failure in the receiver (returned with an error, never as success)",
         "iteration under mutation is weakly consistent (ForEach re-locks per step and follows the pointers of a removed current element): proved and checked is that keys live during the whole iteration are visited exactly once in order; a removed element is still shown when it was the successor of an already removed current element (known finding foreach-visits-removed-element-after-current-removed); free-running writers concurrent with an iteration are covered only through writers that land between two steps",
         "deadlock freedom is proved for the lock skeletons under the RWMutex abstraction; Go scheduler fairness is not needed (some thread can always step)",
     ]
